@@ -18,7 +18,7 @@ import logging
 import types
 import weakref
 
-_TIME_ATTRS = {"expiry", "_when", "when", "deadline", "opened_at"}
+_TIME_ATTRS = {"expiry", "_when", "when", "deadline", "opened_at", "t"}
 _SKIP_ATTRS = {"_loop", "loop", "net", "_source_traceback", "_log_traceback",
                "_log_destroy_pending", "log", "_mismatch_logged", "written"}
 
@@ -74,8 +74,13 @@ class Canon:
         if dataclasses.is_dataclass(o) and type(o).__module__.startswith("pyairtouch."):
             # plain protocol data (messages, headers, status records): the dataclass repr is complete
             if hasattr(o, "expiry"):
-                return ("Q", repr(o.header), repr(o.message), o.retries_remaining, self.rel(o.expiry))
-            return ("D", repr(o))
+                rq = ("Q", repr(o.header), repr(o.message), o.retries_remaining, self.rel(o.expiry))
+                if " at 0x" not in rq[2]:
+                    return rq
+            else:
+                rd = repr(o)
+                if " at 0x" not in rd:          # a field with a default (address based) repr: walk it instead
+                    return ("D", rd)
         r = self._ref(o)
         if r:
             return r
@@ -94,6 +99,10 @@ class Canon:
         if isinstance(o, asyncio.Handle):
             return self.handle(o, depth)
         if isinstance(o, (list, tuple, collections.deque)):
+            if o and all(inspect.iscoroutine(x) for x in o):
+                # a batch of subscriber coroutines built by iterating a set: its order is address based
+                # and irrelevant (canonical_as_completed re-orders it)
+                return (type(o).__name__, "coros") + tuple(sorted(self.iso(x, depth + 1) for x in o))
             return (type(o).__name__,) + tuple(self.c(x, depth + 1) for x in o)
         if isinstance(o, (set, frozenset)):
             return ("set",) + tuple(sorted(self.iso(x, depth + 1) for x in o))
@@ -154,7 +163,10 @@ class Canon:
             loc = ()
             if fr is not None:
                 loc = tuple(sorted(
-                    (k, repr(self.c(v, depth + 2, attr=k))) for k, v in fr.f_locals.items() if k != "self"))
+                    (k, repr(("taskref",) if isinstance(v, asyncio.Task) else self.c(v, depth + 2, attr=k)))
+                    for k, v in fr.f_locals.items() if k != "self"))
+                # (a Task held in a local - e.g. a leftover loop variable over a *set* of tasks - is
+                # rendered without identity: which element a set iteration visited last is address based)
             out.append((code.co_qualname, fr.f_lasti if fr else -1, loc))
             coro = nxt
         return tuple(out)
